@@ -12,18 +12,18 @@ import (
 
 // WorkerArgs is passed in the VERIF_WORKER environment variable.
 type WorkerArgs struct {
-	Mode      string `json:"mode"` // explore | run | gen
-	Property  string `json:"property"`
-	VerifSeed uint64 `json:"verif_seed"`
-	From      int    `json:"from"`
-	To        int    `json:"to"`
-	Stride    int    `json:"stride"`
-	Offset    int    `json:"offset"`
-	Out       string `json:"out"`
-	Root      string `json:"root"`
-	Scenario  string `json:"scenario"`
-	Tier      string `json:"tier"`
-	Samples   int    `json:"samples"`
+	Mode      string            `json:"mode"` // explore | run | gen
+	Property  string            `json:"property"`
+	VerifSeed uint64            `json:"verif_seed"`
+	From      int               `json:"from"`
+	To        int               `json:"to"`
+	Stride    int               `json:"stride"`
+	Offset    int               `json:"offset"`
+	Out       string            `json:"out"`
+	Root      string            `json:"root"`
+	Scenario  string            `json:"scenario"`
+	Tier      string            `json:"tier"`
+	Samples   int               `json:"samples"`
 	Extra     map[string]string `json:"extra,omitempty"`
 }
 
